@@ -440,7 +440,12 @@ def check(ctx):
     from rules.common import SubCtx
     import props.C09 as c09
     sub = SubCtx(ctx)
-    c09.check(sub)
+    try:
+        c09.check(sub)
+    except AnalysisBroken:
+        # what C09 had refuted before it stopped still stands; otherwise its stop is ours
+        if not [r for r in sub.results if not r[2] and (r[0].startswith('C09.R1') or r[0].startswith('C09.R2'))]:
+            raise
     bad = [r for r in sub.results if not r[2] and (r[0].startswith('C09.R1') or r[0].startswith('C09.R2'))]
     ctx.ob('C10.B2.depth-index', 'previous_moves[_current_depth]', not bad,
            'the iteration counter used as an index is bounded by MAX_DEPTH: every definition of the depth limit is clamped and '
@@ -612,7 +617,8 @@ def _heap_rule(ctx, p, f, n, base, idx, itv, kind):
     if kind == 'heap:std::map':
         return True, 'map', 'std::map::operator[] inserts a missing key: no bound to respect'
     if kind == 'heap:std::match_results':
-        return cv is not None and 0 <= cv <= 5, 'match-group', 'sub-match index of a regex with five groups (an unmatched group yields an empty sub_match)'
+        return (cv is not None and cv >= 0) or (itv is not None and itv[0] is not None and itv[0] >= 0), 'match-group', \
+            'std::match_results::operator[] answers an empty sub_match for an index beyond the groups of the regex: only a negative index is out of bounds'
     obj = kids(n)[1]
     o = strip_casts(obj)
     if kind == 'heap:std::basic_string':
@@ -888,7 +894,9 @@ def _valid_square_expr(p, g, e, depth):
         return 0 <= cv <= 63, 'constant %d' % cv
     for pre, why in (('from(', 'from()/to() mask 0x3F'), ('to(', 'from()/to() mask 0x3F'), ('pin_square(', 'pin_square masks 0x3F'),
                      ('make_square(', 'make_square of rank/file'), ('flip_vertically(', 'flip of a valid square'),
-                     ('flip_horizontally(', 'flip of a valid square'), ('normalize(', 'normalize of a valid square')):
+                     ('flip_horizontally(', 'flip of a valid square'), ('normalize(', 'normalize of a valid square'),
+                     ('pop_lsb(', 'bit index of a bit scan (0..63)'), ('lsb(', 'bit index of a bit scan (0..63)'),
+                     ('msb(', 'bit index of a bit scan (0..63)')):
         if s.startswith(pre):
             return True, why
     if 'piece_position(' in s and s.startswith(('position.piece_position', 'pos.piece_position', 'piece_position', 'this', 'uci')) \
